@@ -10,6 +10,11 @@
 //! around 128*8, 256*8, 1024*8 and 4096*8 bits, `big_shapes()`, `zero_shapes()` and seeded random big inputs.  The ops
 //! `unpack_ref` / `pack_ref` / `roundtrip_ref` are the same real calls; the model answers them on the reference lane
 //! semantics alone (the pipeline model of `apply_along_axis` needs ~2 s per 1000 bytes by axis).
+//!
+//! Part 2: `seq a / b / c` lines (several calls on one thread, hidden state between calls), an A-B-A re-run of the previous case
+//! after every array case, and the ops `unpack_n` / `pack_n` / `roundtrip_n` for huge inputs: the model answers outcome class and
+//! result shape, the values are compared with the harness-native coordinate reference below (`nat_unpack` / `nat_pack`), which is
+//! compared with the full model answer on every other array case of the run (`oracle_report` lines carry the count).
 use arrharness::*;
 
 // ------------------------------------------------------------------ protocol
@@ -97,15 +102,23 @@ fn respellings(order: &Order) -> Vec<(&'static str, Order)> {
 
 /// run `f(chained, order)` on the plain receiver (the answer), again, chained, and with every other spelling on both receivers
 /// (`salt` alternates which receiver takes which respelling, so that every pair is exercised across the run at half the cost)
-fn all_ways(order: &Order, salt: usize, f: &dyn Fn(bool, &Order) -> Result<Array<u8>, ArrayError>) -> String {
+fn all_ways(order: &Order, salt: usize, f: &dyn Fn(bool, &Order) -> Result<Array<u8>, ArrayError>) -> String { all_ways_w(order, salt, false, f) }
+/// `light` (huge inputs, where one call of the crate takes 0.1 .. 3 s): the plain call as spelled and ONE more call, on the Result
+/// receiver with another spelling of the order (rotating with `salt`)
+fn all_ways_w(order: &Order, salt: usize, light: bool, f: &dyn Fn(bool, &Order) -> Result<Array<u8>, ArrayError>) -> String {
     let base = guarded(|| show_u8(&f(false, order)));
-    let mut ways: Vec<(String, String)> = vec![
-        ("the same call a second time".into(), guarded(|| show_u8(&f(false, order)))),
-        ("the call on Ok(array) (Result receiver)".into(), guarded(|| show_u8(&f(true, order)))),
-    ];
-    for (i, (label, o)) in respellings(order).into_iter().enumerate() {
-        if (i + salt) % 2 == 0 { ways.push((format!("{label}, plain receiver"), guarded(|| show_u8(&f(false, &o))))); }
-        else { ways.push((format!("{label}, Result receiver"), guarded(|| show_u8(&f(true, &o))))); }
+    let mut ways: Vec<(String, String)> = vec![];
+    if light {
+        let re = respellings(order);
+        if re.is_empty() { ways.push(("the call on Ok(array) (Result receiver)".into(), guarded(|| show_u8(&f(true, order))))); }
+        else { let (label, o) = &re[salt % re.len()]; ways.push((format!("{label}, Result receiver"), guarded(|| show_u8(&f(true, o))))); }
+    } else {
+        ways.push(("the same call a second time".into(), guarded(|| show_u8(&f(false, order)))));
+        ways.push(("the call on Ok(array) (Result receiver)".into(), guarded(|| show_u8(&f(true, order)))));
+        for (i, (label, o)) in respellings(order).into_iter().enumerate() {
+            if (i + salt) % 2 == 0 { ways.push((format!("{label}, plain receiver"), guarded(|| show_u8(&f(false, &o))))); }
+            else { ways.push((format!("{label}, Result receiver"), guarded(|| show_u8(&f(true, &o))))); }
+        }
     }
     for (label, got) in ways {
         let same = got == base || (class_of(&got) == "err" && class_of(&base) == "err");
@@ -134,20 +147,200 @@ macro_rules! repr_case { ($ty:ty, $uty:ty, $v:expr, $op:expr) => {{
     }
 }} }
 
+
+// ------------------------------------------------------------------ harness-native reference (direct coordinate formulas)
+//
+// Bit `j` of the result lane is bit `j % 8` (counted from the most significant end for `big`, from the least significant end for
+// `little`) of byte `j / 8` of the source lane; packing is the inverse with zero padding of the last group.  Position `(o, j, i)` of an
+// array seen as outer x axis x inner is flat index `(o * len + j) * inner + i`.  The reference is compared with the full model answer
+// on every unpack / pack / round-trip case of the run where it has an opinion (`oracle_report` carries the count); the huge cases
+// (`*_n` ops) are compared with the reference alone, the model answering outcome class and result shape.
+
+use std::sync::atomic::{AtomicUsize, Ordering as AtOrd};
+static ORACLE_CHECKED: AtomicUsize = AtomicUsize::new(0);
+static ORACLE_SILENT: AtomicUsize = AtomicUsize::new(0);
+static ORACLE_ONLY: AtomicUsize = AtomicUsize::new(0);
+static ABA_RERUNS: AtomicUsize = AtomicUsize::new(0);
+static SEQ_MEMBERS: AtomicUsize = AtomicUsize::new(0);
+
+fn nat_order(o: &Order) -> Result<bool, ()> {
+    match o {
+        Order::Absent | Order::Enum(BitOrder::Big) => Ok(false),
+        Order::Enum(BitOrder::Little) => Ok(true),
+        Order::Str(t) | Order::Owned(t) => match t.as_str() { "big" => Ok(false), "little" => Ok(true), _ => Err(()) },
+    }
+}
+fn nat_axis(rank: usize, axis: Option<isize>) -> Result<Option<usize>, ()> {
+    match axis {
+        None => Ok(None),
+        Some(ax) => { let n = if ax < 0 { ax.checked_add(rank as isize).ok_or(())? } else { ax }; if n < 0 || n as usize >= rank { Err(()) } else { Ok(Some(n as usize)) } }
+    }
+}
+/// how many of the `bits` bits of a lane `count` keeps
+fn nat_count(bits: usize, count: Option<isize>) -> Result<usize, ()> {
+    match count {
+        None => Ok(bits),
+        Some(c) if c >= 0 => if c as usize > bits { Err(()) } else { Ok(c as usize) },
+        Some(c) => { let t = c.unsigned_abs(); if t > bits { Err(()) } else { Ok(bits - t) } }
+    }
+}
+fn bit_of(byte: u8, k: usize, little: bool) -> u8 { if little { (byte >> k) & 1 } else { (byte >> (7 - k)) & 1 } }
+type NatAns = Option<Result<(Vec<usize>, Vec<u8>), ()>>;
+
+/// `None` = no opinion (a count that leaves zero-length lanes)
+fn nat_unpack(shape: &[usize], el: &[u8], axis: Option<isize>, count: Option<isize>, order: &Order) -> NatAns {
+    let Ok(little) = nat_order(order) else { return Some(Err(())) };
+    let Ok(ax) = nat_axis(shape.len(), axis) else { return Some(Err(())) };
+    if el.is_empty() { return Some(Ok((vec![0], vec![]))); }
+    match ax {
+        None => match nat_count(8 * el.len(), count) {
+            Err(()) => Some(Err(())),
+            Ok(m) => Some(Ok((vec![m], (0..m).map(|p| bit_of(el[p / 8], p % 8, little)).collect()))),
+        },
+        Some(k) => {
+            let (outer, n, inner) = (prod(&shape[..k]), shape[k], prod(&shape[k + 1..]));
+            let m = match nat_count(8 * n, count) { Err(()) => return Some(Err(())), Ok(m) => m };
+            if m == 0 { return None; }
+            let mut out = vec![0u8; outer * m * inner];
+            for o in 0..outer { for j in 0..m { for i in 0..inner { out[(o * m + j) * inner + i] = bit_of(el[(o * n + j / 8) * inner + i], j % 8, little); } } }
+            let mut sh = shape.to_vec(); sh[k] = m;
+            Some(Ok((sh, out)))
+        }
+    }
+}
+fn nat_pack(shape: &[usize], el: &[u8], axis: Option<isize>, order: &Order) -> NatAns {
+    let Ok(little) = nat_order(order) else { return Some(Err(())) };
+    let Ok(ax) = nat_axis(shape.len(), axis) else { return Some(Err(())) };
+    if el.is_empty() { return Some(Ok((vec![0], vec![]))); }
+    let place = |k: usize| if little { k } else { 7 - k };
+    match ax {
+        None => {
+            let m = (el.len() + 7) / 8;
+            let mut out = vec![0u8; m];
+            for (p, v) in el.iter().enumerate() { if *v > 0 { out[p / 8] |= 1 << place(p % 8); } }
+            Some(Ok((vec![m], out)))
+        }
+        Some(k) => {
+            let (outer, n, inner) = (prod(&shape[..k]), shape[k], prod(&shape[k + 1..]));
+            let m = (n + 7) / 8;
+            let mut out = vec![0u8; outer * m * inner];
+            for o in 0..outer { for j in 0..n { for i in 0..inner { if el[(o * n + j) * inner + i] > 0 { out[(o * m + j / 8) * inner + i] |= 1 << place(j % 8); } } } }
+            let mut sh = shape.to_vec(); sh[k] = m;
+            Some(Ok((sh, out)))
+        }
+    }
+}
+fn nat_text(a: NatAns) -> Option<String> {
+    a.map(|r| match r { Ok((sh, el)) => format!("ok {}:{}", show_list(&sh), show_list(&el)), Err(()) => "err reference".to_string() })
+}
+fn base_op(op: &str) -> &str { op.strip_suffix("_ref").or_else(|| op.strip_suffix("_n")).unwrap_or(op) }
+fn parse_raw_bytes(s: &str) -> Option<(Vec<usize>, Vec<u8>)> {
+    let (sh, el) = s.split_once(':')?;
+    let elems: Vec<u8> = if el == "-" { vec![] } else { el.split(',').map(|x| x.parse::<u8>().ok()).collect::<Option<Vec<u8>>>()? };
+    Some((parse_usize_list(sh), elems))
+}
+/// the reference's full answer to an unpack / pack / round-trip case line
+fn native_answer(op: &str, args: &[&str]) -> Option<String> {
+    let (shape, el) = parse_raw_bytes(args[0])?;
+    let axis = parse_opt::<isize>(args[1]);
+    match base_op(op) {
+        "unpack" => nat_text(nat_unpack(&shape, &el, axis, parse_opt::<isize>(args[2]), &parse_order(args[3])?)),
+        "pack" => nat_text(nat_pack(&shape, &el, axis, &parse_order(args[2])?)),
+        "roundtrip" => {
+            let order = parse_order(args[2])?;
+            match nat_unpack(&shape, &el, axis, None, &order)? { Err(()) => Some("err reference".into()), Ok((sh, bits)) => nat_text(nat_pack(&sh, &bits, axis, &order)) }
+        }
+        _ => None,
+    }
+}
+/// the plain-receiver call exactly as spelled, once (A-B-A re-runs and `seq` members)
+fn plain_text(op: &str, args: &[&str]) -> Option<String> {
+    let a = parse_bytes(args[0])?; let axis = parse_opt::<isize>(args[1]);
+    Some(match base_op(op) {
+        "unpack" => { let count = parse_opt::<isize>(args[2]); let order = parse_order(args[3])?; guarded(|| show_u8(&unpack(&a, false, axis, count, &order))) }
+        "pack" => { let order = parse_order(args[2])?; guarded(|| show_u8(&pack(&a, false, axis, &order))) }
+        "roundtrip" => { let order = parse_order(args[2])?; guarded(|| show_u8(&roundtrip(&a, false, axis, &order))) }
+        _ => return None,
+    })
+}
+fn is_array_op(op: &str) -> bool { matches!(base_op(op), "unpack" | "pack" | "roundtrip") }
+/// what the round trip must return by the property itself
+fn want_roundtrip(a: &str, axis: &str) -> String {
+    if axis == "none" { let (sh, el) = a.split_once(':').unwrap(); format!("ok {}:{}", prod(&parse_usize_list(sh)), el) } else { format!("ok {a}") }
+}
+
+thread_local! {
+    /// the previous (small) array case of this worker thread and the plain call's answer
+    static PREV: std::cell::RefCell<Option<(String, Vec<String>, String)>> = const { std::cell::RefCell::new(None) };
+}
+
+/// `seq a / b / c`: the member calls are made one after the other (plain receiver, as spelled) and each is compared with the model
+fn exec_seq(args: &[&str], expected: &str) -> Option<Verdict> {
+    let members: Vec<&[&str]> = args.split(|t| *t == "/").collect();
+    let answers: Vec<&str> = expected.split(" / ").collect();
+    if members.len() != answers.len() { return None; }
+    let mut obs = vec![];
+    let mut bad: Option<String> = None;
+    for (k, (m, e)) in members.iter().zip(&answers).enumerate() {
+        let (op, a) = (m[0], &m[1..]);
+        let got = plain_text(op, a)?;
+        SEQ_MEMBERS.fetch_add(1, AtOrd::Relaxed);
+        let agrees = got == *e || (class_of(&got) == "err" && class_of(e) == "err");
+        let rt_broken = base_op(op) == "roundtrip" && !a[0].ends_with(":-") && class_of(&got) == "ok" && got != want_roundtrip(a[0], a[1]);
+        if (!agrees || rt_broken) && bad.is_none() {
+            bad = Some(format!("member {k} (`{}`) answers `{}`, the model says `{}`", truncate(&m.join(" "), 300), truncate(&got, 300), truncate(e, 300)));
+        }
+        obs.push(truncate(&got, 300));
+    }
+    let observed = obs.join(" / ");
+    Some(match bad { Some(detail) => Verdict::Mismatch { observed, detail }, None => Verdict::Match(observed) })
+}
+
 fn exec(op: &str, args: &[&str], expected: &str) -> Option<Verdict> {
+    match op {
+        "seq" => { PREV.with(|p| *p.borrow_mut() = None); return exec_seq(args, expected); }
+        "oracle_report" => {
+            let (n, silent, only, aba, sq) = (ORACLE_CHECKED.load(AtOrd::Relaxed), ORACLE_SILENT.load(AtOrd::Relaxed), ORACLE_ONLY.load(AtOrd::Relaxed), ABA_RERUNS.load(AtOrd::Relaxed), SEQ_MEMBERS.load(AtOrd::Relaxed));
+            let text = format!("ok report: so far the harness-native reference agreed with the full model answer on {n} cases (no opinion on {silent}), {only} huge cases compared with the reference only, {aba} A-B-A re-runs, {sq} seq members");
+            if args.first() == Some(&"final") && n < 1000 { return Some(Verdict::Mismatch { observed: text, detail: "the reference was compared with the model on fewer than 1000 cases".into() }); }
+            return Some(Verdict::Match(text));
+        }
+        _ => {}
+    }
+    let mut v = exec_single(op, args, expected)?;
+    if !is_array_op(op) { return Some(v); }
+    // A-B-A: after this case (B) the previous case (A) is called again and must answer what it answered before B
+    let prev = PREV.with(|p| p.borrow_mut().take());
+    if let Some((pop, pargs, ptext)) = prev {
+        let pa: Vec<&str> = pargs.iter().map(String::as_str).collect();
+        if let Some(again) = plain_text(&pop, &pa) {
+            ABA_RERUNS.fetch_add(1, AtOrd::Relaxed);
+            if again != ptext && !matches!(v, Verdict::Mismatch { .. }) {
+                v = Verdict::Mismatch { observed: format!("STATE-DIVERGENCE `{pop} {}` called again after this case gives `{}`", truncate(&pargs.join(" "), 300), truncate(&again, 300)),
+                                        detail: format!("before this case it gave `{}`; this case itself agrees with the model (`{}`)", truncate(&ptext, 300), truncate(expected, 200)) };
+            }
+        }
+    }
+    if args[0].len() <= 3000 {
+        if let Verdict::Match(o) = &v { PREV.with(|p| *p.borrow_mut() = Some((op.to_string(), args.iter().map(|s| s.to_string()).collect(), o.clone()))); }
+    }
+    Some(v)
+}
+
+fn exec_single(op: &str, args: &[&str], expected: &str) -> Option<Verdict> {
     let observed = match op {
-        "unpack" | "unpack_ref" => {
+        "unpack" | "unpack_ref" | "unpack_n" => {
             let a = parse_bytes(args[0])?; let axis = parse_opt::<isize>(args[1]); let count = parse_opt::<isize>(args[2]);
             let order = parse_order(args[3])?;
-            all_ways(&order, args[0].len() + args[1].len(), &|chained, o| unpack(&a, chained, axis, count, o))
+            all_ways_w(&order, args[0].len() + args[1].len(), args[0].len() > 60_000, &|chained, o| unpack(&a, chained, axis, count, o))
         }
-        "pack" | "pack_ref" => {
+        "pack" | "pack_ref" | "pack_n" => {
             let a = parse_bytes(args[0])?; let axis = parse_opt::<isize>(args[1]); let order = parse_order(args[2])?;
-            all_ways(&order, args[0].len() + args[1].len(), &|chained, o| pack(&a, chained, axis, o))
+            all_ways_w(&order, args[0].len() + args[1].len(), args[0].len() > 300_000, &|chained, o| pack(&a, chained, axis, o))
         }
-        "roundtrip" | "roundtrip_ref" => {
+        "roundtrip" | "roundtrip_ref" | "roundtrip_n" => {
             let a = parse_bytes(args[0])?; let axis = parse_opt::<isize>(args[1]); let order = parse_order(args[2])?;
-            all_ways(&order, args[0].len() + args[1].len(), &|chained, o| roundtrip(&a, chained, axis, o))
+            all_ways_w(&order, args[0].len() + args[1].len(), args[0].len() > 60_000, &|chained, o| roundtrip(&a, chained, axis, o))
         }
         "to_bit_order" => {
             let r = match parse_order(args[0])? {
@@ -181,17 +374,40 @@ fn exec(op: &str, args: &[&str], expected: &str) -> Option<Verdict> {
         },
         _ => return None,
     };
+    // the harness-native reference: compared with the model wherever it has an opinion; the huge `*_n` cases are compared with it alone
+    let mut reference_answer: Option<String> = None;
+    if is_array_op(op) {
+        let reference = native_answer(op, args);
+        if op.ends_with("_n") {
+            let r = reference?;      // `*_n` lines are only generated where the reference has an opinion
+            let shape_ok = match expected.strip_prefix("ok shape ") {
+                Some(sh) => r.strip_prefix("ok ").and_then(|b| b.split_once(':')).map_or(false, |(s, _)| s == sh),
+                None => class_of(expected) == "err" && class_of(&r) == "err",
+            };
+            if !shape_ok { return Some(Verdict::Mismatch { detail: format!("the harness-native reference (`{}`) and the model's outcome / shape answer `{expected}` disagree (reference or model defect)", truncate(&r, 200)), observed }); }
+            ORACLE_ONLY.fetch_add(1, AtOrd::Relaxed);
+            reference_answer = Some(r);
+        } else if let Some(r) = reference {
+            if r != expected && !(class_of(&r) == "err" && class_of(expected) == "err") {
+                return Some(Verdict::Mismatch { detail: format!("the harness-native reference says `{}` but the model `{}` (reference or model defect)", truncate(&r, 300), truncate(expected, 300)), observed });
+            }
+            ORACLE_CHECKED.fetch_add(1, AtOrd::Relaxed);
+        } else { ORACLE_SILENT.fetch_add(1, AtOrd::Relaxed); }
+    }
     // the property itself, independent of the model: the round trip returns the input
     // (by axis: bytes and shape; flat form: the bytes in flat order as a 1-D array)
-    let want_rt = |a: &str| if args[1] == "none" { let (sh, el) = a.split_once(':').unwrap(); format!("ok {}:{}", prod(&parse_usize_list(sh)), el) } else { format!("ok {a}") };
     // (an empty input is answered by `Array::empty()` — shape [0] — in both operations; the theorems exclude zero-length axes,
     //  so there only the model's answer is compared)
     let empty_input = args[0].ends_with(":-");
-    if (op == "roundtrip" || op == "roundtrip_ref") && !empty_input && class_of(&observed) == "ok" && observed != want_rt(args[0]) {
+    if base_op(op) == "roundtrip" && is_array_op(op) && !empty_input && class_of(&observed) == "ok" && observed != want_roundtrip(args[0], args[1]) {
         return Some(Verdict::Mismatch { detail: format!("pack_bits(unpack_bits(a)) is not a; model says `{}`", truncate(expected, 300)), observed });
     }
     if op == "repr_parse" && class_of(&observed) == "ok" && observed != format!("ok {}", args[1]) {
         return Some(Verdict::Mismatch { detail: format!("binary_repr does not parse back; model says `{expected}`"), observed });
+    }
+    if let Some(r) = reference_answer {
+        return Some(if observed == r || (class_of(&observed) == "err" && class_of(&r) == "err") { Verdict::Match(observed) }
+                    else { Verdict::Mismatch { detail: format!("the harness-native reference says `{}`; the model says `{expected}`", truncate(&r, 400)), observed } });
     }
     Some(compare_default(observed, expected))
 }
@@ -394,11 +610,263 @@ fn robustness(thorough: bool, seed: u64, out: &mut dyn FnMut(String)) {
     }
 }
 
+
+// ------------------------------------------------------------------ robustness streams, part 2 (hidden state, huge sizes, exact lengths)
+
+/// rows (each of length l) laid out as the array [l, rows.len()] (the rows become the lanes along axis 0)
+fn transposed(rows: &[Vec<u8>]) -> Vec<u8> {
+    let l = rows[0].len();
+    let mut v = Vec::with_capacity(l * rows.len());
+    for j in 0..l { for r in rows { v.push(r[j]); } }
+    v
+}
+fn bits_big(bytes: &[u8]) -> Vec<u8> { bytes.iter().flat_map(|b| (0..8).map(move |k| (b >> (7 - k)) & 1)).collect() }
+
+/// a lane and variants of it that share a long suffix / prefix with it, or its multiset / sum / xor of values: a memo keyed by a weak
+/// fingerprint of the lane (last or first 8 bytes, a checksum, length and order only) hands the wrong lane's answer to one of them
+fn lane_family(l: usize, fx: &mut Rng, bits: bool) -> Vec<Vec<u8>> {
+    let mut base: Vec<u8> = (0..l).map(|_| if bits { fx.below(2) as u8 } else { fx.below(256) as u8 }).collect();
+    if bits { base[0] = 1; base[1] = 0; if l > 2 { base[2] = 1; } } else { base[1] = base[0] ^ 0x33; }
+    let var = |f: &dyn Fn(&mut Vec<u8>)| { let mut v = base.clone(); f(&mut v); v };
+    let flip = |x: &mut u8| { *x = if bits { 1 - (*x).min(1) } else { *x ^ 0x5A } };
+    let early = var(&|v| flip(&mut v[0]));
+    let early2 = var(&|v| flip(&mut v[l.saturating_sub(9)]));
+    let late = var(&|v| flip(&mut v[l - 1]));
+    let late2 = var(&|v| flip(&mut v[8.min(l - 1)]));
+    let swap = var(&|v| v.swap(0, 1));
+    let mut fam = vec![base.clone(), early, base.clone(), early2, late, base.clone(), late2, swap];
+    if bits {
+        fam.push(var(&|v| for x in v.iter_mut() { if *x > 0 { *x = 255; } }));      // the same bits spelled with other non-zero values
+        fam.push(var(&|v| { v.rotate_left(1); }));
+    } else {
+        fam.push(var(&|v| { v[0] = v[0].wrapping_add(1); v[1] = v[1].wrapping_sub(1); }));   // same sum
+        fam.push(var(&|v| { v[0] ^= 0x10; v[2.min(l - 1)] ^= 0x10; }));                    // same xor
+        fam.push(var(&|v| v.reverse()));
+    }
+    fam.push(base);
+    fam
+}
+
+fn robustness2(thorough: bool, seed: u64, out: &mut dyn FnMut(String)) {
+    let mut fx = Rng::new(0xB193);
+    let spell = |little: bool, k: usize| if little { ORDERS_LITTLE[k % 3] } else { ORDERS_BIG[k % 4] };
+    let mut k = 0usize;
+
+    // (H1) hidden state inside ONE call: consecutive lanes that share a long suffix / prefix (lane lengths 9..40 and longer)
+    let lens: Vec<usize> = if thorough { (9..=40).chain([48, 64, 100, 129, 300]).collect() } else { vec![9, 10, 11, 12, 13, 15, 16, 17, 20, 24, 25, 31, 32, 33, 40, 64, 129] };
+    for &l in &lens {
+        let fam = lane_family(l, &mut fx, false);
+        let r = fam.len();
+        let rows: Vec<u8> = fam.concat();
+        let cols = transposed(&fam);
+        let bit_rows: Vec<Vec<u8>> = fam.iter().map(|b| bits_big(b)).collect();
+        for little in [false, true] {
+            k += 1;
+            let (a, t) = (arr(&[r, l], &rows), arr(&[l, r], &cols));
+            out(format!("{} {a} 1 none {}", opname_w("unpack", r * l, "1", false), spell(little, k)));
+            out(format!("{} {t} 0 none {}", opname_w("unpack", r * l, "0", false), spell(little, k + 1)));
+            out(format!("{} {a} -1 {}", opname_w("roundtrip", r * l, "1", false), spell(little, k + 2)));
+            out(format!("{} {t} -2 {}", opname_w("roundtrip", r * l, "0", false), spell(little, k + 3)));
+            if l <= 40 { out(format!("{} {a} 1 {} {}", opname_w("unpack", r * l, "1", false), [-3isize, 11, -8, 7][k % 4], spell(little, k))); }
+            if l <= 40 || little {
+                out(format!("{} {} 1 {}", opname_w("pack", r * l * 8, "1", false), arr(&[r, 8 * l], &bit_rows.concat()), spell(little, k)));
+                if l <= 40 { out(format!("{} {} 0 {}", opname_w("pack", r * l * 8, "0", false), arr(&[8 * l, r], &transposed(&bit_rows)), spell(little, k + 1))); }
+            }
+        }
+        // lanes of l BITS
+        let bf = lane_family(l, &mut fx, true);
+        let br = bf.len();
+        for little in [false, true] {
+            k += 1;
+            out(format!("{} {} 1 {}", opname_w("pack", br * l, "1", false), arr(&[br, l], &bf.concat()), spell(little, k)));
+            out(format!("{} {} -2 {}", opname_w("pack", br * l, "0", false), arr(&[l, br], &transposed(&bf)), spell(little, k + 1)));
+        }
+        // (H2) hidden state between CALLS: the same lanes as consecutive flat calls on one thread
+        if l <= 64 || thorough {
+            for little in [false, true] {
+                k += 1;
+                let o = spell(little, k);
+                out(format!("seq {}", fam.iter().map(|b| format!("unpack {} none none {o}", arr(&[l], b))).collect::<Vec<_>>().join(" / ")));
+                out(format!("seq {}", fam.iter().map(|b| format!("roundtrip {} none {o}", arr(&[l], b))).collect::<Vec<_>>().join(" / ")));
+                out(format!("seq {}", bf.iter().map(|b| format!("pack {} none {o}", arr(&[l], b))).collect::<Vec<_>>().join(" / ")));
+                if l <= 24 { out(format!("seq {}", bit_rows.iter().map(|b| format!("pack {} none {o}", arr(&[8 * l], b))).collect::<Vec<_>>().join(" / "))); }
+                // one lane per call through the axis form
+                out(format!("seq {}", fam.iter().enumerate().map(|(i, b)| if i % 2 == 0 { format!("unpack {} 1 none {o}", arr(&[1, l], b)) } else { format!("unpack {} 0 none {o}", arr(&[l, 1], b)) }).collect::<Vec<_>>().join(" / ")));
+            }
+            // the same array: another order, another count, another shape in between
+            let a = &fam[0];
+            let (b, l8) = (bits_big(a), 8 * l);
+            out(format!("seq unpack {0} none none E:big / unpack {0} none none E:little / unpack {0} none none none / unpack {0} none none S:6c6974746c65 / unpack {0} none none T:626967", arr(&[l], a)));
+            out(format!("seq pack {0} none E:big / pack {0} none E:little / pack {0} none none / pack {0} none T:6c6974746c65 / pack {0} none S:626967", arr(&[l8], &b)));
+            out(format!("seq unpack {0} none none none / unpack {0} none -3 none / unpack {0} none 5 none / unpack {0} none none none / unpack {0} none {1} none / unpack {0} none -{1} none / unpack {0} none none none", arr(&[l], a), 8 * l + 1));
+            out(format!("seq unpack {} 0 none none / unpack {} 1 none none / unpack {} 0 none none / unpack {} 1 none none / unpack {} none none none", arr(&[l], a), arr(&[1, l], a), arr(&[l, 1], a), arr(&[l, 1], a), arr(&[l, 1], a)));
+            // (H4) refused calls directly followed by accepted ones on the same array
+            out(format!("seq unpack {0} 5 none none / unpack {0} 0 none none / unpack {0} none none S:626f677573 / unpack {0} none none S:626967 / unpack {0} none -{1} none / unpack {0} none -3 none / pack {0} -2 none / pack {0} -1 none / pack {0} none T:4c6974746c65 / pack {0} none T:6c6974746c65 / roundtrip {0} 1 none / roundtrip {0} 0 none",
+                        arr(&[l], a), 8 * l + 1));
+        }
+    }
+    // (H3) shapes that collide under h*m+dim (lib collision_shape_pairs), back to back in both orders on one thread
+    let pairs = collision_shape_pairs();
+    for (i, (sa, sb)) in pairs.iter().enumerate() {
+        if !thorough && i % 3 != (seed as usize) % 3 && prod(sb) > 150 { continue; }
+        k += 1;
+        let (na, nb) = (prod(sa), prod(sb));
+        let (a, b) = (arr(sa, &fill(k, na, &mut fx)), arr(sb, &fill(k + 1, nb, &mut fx)));
+        let (ba, bb) = (arr(sa, &bits_fill(k, na, &mut fx)), arr(sb, &bits_fill(k + 1, nb, &mut fx)));
+        let r = sa.len();
+        let ax = [(k % r) as isize, (k % r) as isize - r as isize][k % 2];
+        let o = spell(k % 2 == 0, k);
+        let u = |x: &str, n: usize| format!("{} {x} {ax} none {o}", opname_w("unpack", n, "0", false));
+        let p = |x: &str, n: usize| format!("{} {x} {ax} {o}", opname_w("pack", n, "0", false));
+        out(format!("seq {} / {} / {} / {}", u(&a, na), u(&b, nb), u(&a, na), u(&b, nb)));
+        out(format!("seq {} / {} / {} / {}", p(&bb, nb), p(&ba, na), p(&bb, nb), p(&ba, na)));
+        if i % 2 == 0 { out(format!("seq unpack {a} none none {o} / unpack {b} none none {o} / roundtrip {a} none {o} / roundtrip {b} none {o} / pack {ba} none {o} / pack {bb} none {o} / pack {ba} none {o}")); }
+    }
+
+    // (7) huge sizes.  Flat packing of 65 528 .. 1 120 000 bits (blocks of 2^16 - 1 bits are not byte aligned), flat round trips of
+    //     8 191 .. 140 000 bytes, lanes of 8 192 .. 70 000 bytes, lib huge_shapes() along every axis.  `*_n`: values against the
+    //     harness-native reference; a few cases at the thresholds with the full model answer.
+    let mut pack_bits_n: Vec<usize> = (65528..=65545).collect();
+    pack_bits_n.extend([131063, 131064, 131070, 131071, 131072, 131073, 131080, 196605, 196608, 262143, 262145, 560000, 1120000]);
+    for &n in &pack_bits_n {
+        for little in [true, false] {
+            k += 1;
+            if !little && n % 4 != 0 && !thorough { continue; }
+            out(format!("pack_n {} none {}", arr(&[n], &bits_fill(k, n, &mut fx)), spell(little, k)));
+        }
+    }
+    out(format!("pack {} none {}", arr(&[65537], &bits_fill(0, 65537, &mut fx)), spell(true, 1)));       // full model answer (~3 s)
+    if thorough { out(format!("pack {} none {}", arr(&[65535], &bits_fill(1, 65535, &mut fx)), spell(false, 1))); }
+    let mut rt_n: Vec<usize> = vec![8191, 8192, 8193, 8200, 16383, 16384, 16385, 33000, 70000, 140000];
+    if thorough { rt_n.extend([8199, 12288, 24576, 32768, 65535, 65536, 65537]); }
+    for &n in &rt_n {
+        for little in [true, false] {
+            k += 1;
+            let a = arr(&[n], &fill(k, n, &mut fx));
+            out(format!("roundtrip_n {a} none {}", spell(little, k)));
+            if little { out(format!("unpack {a} none none {}", spell(k % 2 == 0, k))); }            // flat unpacking: the model is linear
+            if n <= 16385 && little { out(format!("roundtrip_n {a} {} {}", [0, -1][k % 2], spell(false, k))); }
+        }
+    }
+    if thorough { out(format!("roundtrip {} none {}", arr(&[8193], &fill(1, 8193, &mut fx)), spell(true, 2))); }        // full model answer (~3 s)
+    let mut lanes_n: Vec<(Vec<usize>, isize)> = vec![(vec![1, 8192], 1), (vec![8192, 1], 0), (vec![2, 8193], -1), (vec![8200, 2], 0), (vec![3, 8192, 1], 1)];
+    if thorough { lanes_n.extend(vec![(vec![1, 16384], -1), (vec![2, 8192, 2], 1), (vec![65536, 1], 0), (vec![1, 65537], 1), (vec![33000, 3], 0)]); }
+    for (sh, ax) in &lanes_n {
+        k += 1;
+        let n = prod(sh);
+        let a = arr(sh, &fill(k, n, &mut fx));
+        out(format!("roundtrip_n {a} {ax} {}", spell(true, k)));
+        out(format!("unpack_n {a} {ax} none {}", spell(false, k)));
+        if n <= 20000 || thorough { out(format!("unpack_n {a} {ax} {} {}", [-5isize, 65529, -65529, 17][k % 4], spell(true, k + 1))); }
+        // the bit lanes of 8 x that length are reached through the round trip; bit lanes of the same length directly
+        out(format!("pack_n {} {ax} {}", arr(sh, &bits_fill(k, n, &mut fx)), spell(k % 2 == 0, k)));
+    }
+    // every axis of the huge shapes (and the threshold 2^14 in ranks 2..4): unpacking, the round trip, packing
+    let mut hs = huge_shapes();
+    hs.extend(vec![vec![128, 128], vec![1, 130, 130], vec![16384, 1], vec![1, 16384], vec![2, 8192], vec![4, 64, 64], vec![2, 2, 64, 64], vec![127, 129], vec![1, 1, 16385], vec![3, 5462]]);
+    if !thorough { hs.retain(|s| ![vec![300, 300], vec![5, 4, 10, 10, 10], vec![2, 2, 64, 64], vec![1, 1, 16385], vec![3, 5462], vec![70000]].contains(s)); }
+    for sh in &hs {
+        let (n, r) = (prod(sh), sh.len());
+        k += 1;
+        let a = arr(sh, &fill(k, n, &mut fx));
+        let b = arr(sh, &bits_fill(k, n, &mut fx));
+        for ax in 0..r {
+            let lane = sh[ax];
+            if r == 1 && rt_n.contains(&n) { continue; }
+            if n / lane > 5000 && !(thorough && n / lane <= 20000) { continue; }       // the crate itself is quadratic in the number of lanes (0.2 s per call at 16 384 lanes, 3 s at 70 000)
+            let axs = if (ax + k) % 2 == 0 { ax.to_string() } else { (ax as isize - r as isize).to_string() };
+            let little = (ax + k) % 2 == 0;
+            out(format!("unpack_n {a} {axs} none {}", spell(little, k + ax)));
+            if thorough || ax == 0 || ax == k % r { out(format!("roundtrip_n {a} {axs} {}", spell(!little, k + ax))); }
+            if thorough || ax == (k + 1) % r { out(format!("pack_n {b} {axs} {}", spell(little, k + ax + 1))); }
+            // the model itself (reference lane semantics, ~0.5 s each) at the 2^14 threshold
+            if [(vec![128, 128], 0), (vec![1, 130, 130], 1), (vec![130, 130], 1)].contains(&(sh.clone(), ax)) || (thorough && lane <= 300 && n <= 17000 && n / lane <= 300) { out(format!("unpack_ref {a} {axs} none {}", spell(!little, k))); }
+        }
+        if r > 1 { out(format!("roundtrip_n {a} none {}", spell(true, k))); if thorough || n < 40000 { out(format!("pack_n {b} none {}", spell(false, k))); } }
+    }
+
+    // (8) exact lengths: every axis length 1..300 in a non-leading position (short lanes: model; long lanes: reference), the lengths
+    //     31 / 37 / 49 / 1000 / 1001 and primes above 17 flat and as lanes
+    for l in 1..=300usize {
+        k += 1;
+        let little = k % 2 == 0;
+        let a2 = arr(&[2, l], &fill(k, 2 * l, &mut fx));
+        let selected = l <= 40 || [49, 64, 97, 100, 127, 128, 129, 255, 256, 257, 300].contains(&l);
+        out(format!("unpack_ref {a2} 0 none {}", spell(little, k)));                                         // lanes of 2 bytes, inner length l
+        out(format!("{} {a2} 1 {}", if selected { "roundtrip_ref" } else { "roundtrip_n" }, spell(!little, k)));      // lanes of l bytes
+        out(format!("{} {} 1 {}", if selected || l % 7 == 0 { "pack_ref" } else { "pack_n" }, arr(&[3, l], &bits_fill(k, 3 * l, &mut fx)), spell(little, k + 1)));
+        if l % 3 == k % 3 || selected { out(format!("{} {} 1 none {}", if l <= 40 { "unpack_ref" } else { "unpack_n" }, arr(&[2, l, 2], &fill(k + 1, 4 * l, &mut fx)), spell(!little, k + 1))); }
+        if thorough || l % 5 == 0 { out(format!("pack_n {} -2 {}", arr(&[2, l, 3], &bits_fill(k + 2, 6 * l, &mut fx)), spell(little, k))); }
+    }
+    for n in [19usize, 23, 29, 31, 37, 41, 43, 47, 49, 53, 97, 101, 251, 257, 1000, 1001] {
+        for little in [true, false] {
+            k += 1;
+            let a = arr(&[n], &fill(k, n, &mut fx));
+            out(format!("roundtrip {a} none {}", spell(little, k)));
+            out(format!("pack {} none {}", arr(&[n], &bits_fill(k, n, &mut fx)), spell(little, k)));
+            if little { out(format!("roundtrip_ref {} {} {}", arr(&[n, 2], &fill(k, 2 * n, &mut fx)), [0, -2][k % 2], spell(k % 2 == 0, k))); }
+            else { out(format!("roundtrip_ref {} {} {}", arr(&[2, n], &fill(k, 2 * n, &mut fx)), [1, -1][k % 2], spell(k % 2 == 0, k))); }
+        }
+    }
+    // (8) values that survive a narrowing cast: axis / count = c + 2^8, c + 2^16, c + 2^32 (and negated) must be refused like any other
+    //     out-of-range value
+    for (sh, cs) in [(vec![3usize], vec![0usize, 5, 24]), (vec![2, 2], vec![0, 1, 16]), (vec![2, 1, 3], vec![1, 2, 8])] {
+        let n = prod(&sh);
+        let a = arr(&sh, &fill(3, n, &mut fx));
+        let b = arr(&sh, &bits_fill(3, n, &mut fx));
+        for &c in &cs {
+            for im in narrowing_images(c) {
+                for v in [im as i128, -(im as i128), -(im as i128) - 1] {
+                    out(format!("unpack {a} {v} none none")); out(format!("pack {b} {v} E:little")); out(format!("roundtrip {a} {v} none"));
+                    out(format!("unpack {a} none {v} none")); out(format!("unpack {a} 0 {v} E:little")); out(format!("unpack {a} -1 {v} none"));
+                }
+            }
+        }
+    }
+    // (10) counts above 65 536 on long inputs
+    {
+        let n = 8200usize;
+        let a = arr(&[n], &fill(5, n, &mut fx));
+        for c in [65535isize, 65536, 65537, 65599, 65600, 65601, -1, -63, -65535, -65536, -65537, -65599, -65600, -65601] { k += 1; out(format!("unpack {a} none {c} {}", spell(k % 2 == 0, k))); }
+    }
+    // (10) ranks 5..8: reference lane semantics of the model (its pipeline form is tied on ranks <= 4)
+    let mut high: Vec<Vec<usize>> = vec![vec![2, 2, 2, 2, 2], vec![1, 2, 1, 2, 1, 3], vec![2, 1, 1, 2, 2, 1, 2], vec![2, 2, 1, 1, 2, 1, 1, 2], vec![3, 1, 2, 1, 9], vec![1, 1, 1, 1, 1, 1, 1, 9]];
+    if thorough { high.extend(vec![vec![2, 2, 2, 2, 2, 2], vec![2, 2, 2, 2, 2, 2, 2], vec![2, 2, 2, 2, 2, 2, 2, 2], vec![2, 3, 1, 3, 2, 1, 2], vec![1, 2, 3, 1, 2, 3, 1, 2]]); }
+    for sh in &high {
+        let (n, r) = (prod(sh), sh.len());
+        k += 1;
+        let a = arr(sh, &fill(k, n, &mut fx));
+        let b = arr(sh, &bits_fill(k, n, &mut fx));
+        out(format!("roundtrip {a} none {}", spell(true, k)));
+        for ax in 0..r {
+            let axs = if (ax + k) % 2 == 0 { ax.to_string() } else { (ax as isize - r as isize).to_string() };
+            out(format!("roundtrip_ref {a} {axs} {}", spell((ax + k) % 2 == 0, k)));
+            out(format!("unpack_ref {a} {axs} {} {}", ["none", "-3", "5"][(ax + k) % 3], spell((ax + k) % 2 == 1, k)));
+            out(format!("pack_ref {b} {axs} {}", spell((ax + k) % 2 == 0, k + 1)));
+        }
+        for ax in [r as isize, -(r as isize) - 1] { out(format!("unpack_ref {a} {ax} none none")); out(format!("pack_ref {b} {ax} none")); }
+    }
+}
+
 fn gen(tier: &str, seed: u64, out: &mut dyn FnMut(String)) {
+    let mut buf: Vec<String> = vec![];
+    gen_all(tier, seed, &mut |l| buf.push(l));
+    // two bookkeeping lines: how often the harness-native reference was compared with the model.  The first one sits where the
+    // summary of lib.rs takes its last sample (so that the count shows up in the evidence), the second one closes the run.
+    let stride = ((buf.len() + 2) / 12).max(1);
+    let at = (11 * stride).min(buf.len());
+    buf.insert(at, "oracle_report".to_string());
+    buf.push("oracle_report final".to_string());
+    for l in buf { out(l); }
+}
+
+fn gen_all(tier: &str, seed: u64, out: &mut dyn FnMut(String)) {
     let thorough = tier == "thorough";
     // (i) corpus
     for l in ["unpack 3:2,3,5 none -3 none", "unpack 1:255 none -1 E:little", "unpack 2,2:1,2,3,4 1 -2 none",
-              "unpack 3:2,3,5 none -25 none", "pack 3,8:0,0,0,0,0,0,1,0,0,0,0,0,0,0,1,1,0,0,0,0,0,1,0,1 0 none"] { out(l.to_string()); }
+              "unpack 3:2,3,5 none -25 none", "pack 3,8:0,0,0,0,0,0,1,0,0,0,0,0,0,0,1,1,0,0,0,0,0,1,0,1 0 none",
+              "roundtrip 2,9:1,10,20,30,40,50,60,70,80,2,10,20,30,40,50,60,70,80 1 S:626967",
+              "seq unpack 9:1,10,20,30,40,50,60,70,80 none none none / unpack 9:2,10,20,30,40,50,60,70,80 none none none"] { out(l.to_string()); }
 
     // (ii.a) every byte value, alone, in every order spelling
     for b in 0..=255u8 {
@@ -501,6 +969,7 @@ fn gen(tier: &str, seed: u64, out: &mut dyn FnMut(String)) {
         }
     }
     robustness(thorough, seed, out);
+    robustness2(thorough, seed, out);
     // (ii.g) binary_repr
     for ty in ["u8", "i8"] {
         let (lo, hi) = if ty == "u8" { (0i64, 255) } else { (-128, 127) };
@@ -574,7 +1043,9 @@ fn gen(tier: &str, seed: u64, out: &mut dyn FnMut(String)) {
 /// non-trivial: an array with at least two elements; a number of magnitude >= 2; every spelling case
 fn nontrivial(op: &str, args: &[&str]) -> bool {
     match op {
-        "unpack" | "pack" | "roundtrip" | "unpack_ref" | "pack_ref" | "roundtrip_ref" => args[0].split_once(':').map_or(false, |(_, e)| e.contains(',')),
+        "unpack" | "pack" | "roundtrip" | "unpack_ref" | "pack_ref" | "roundtrip_ref" | "unpack_n" | "pack_n" | "roundtrip_n" => args[0].split_once(':').map_or(false, |(_, e)| e.contains(',')),
+        "seq" => args.len() > 1 && args[1].split_once(':').map_or(false, |(_, e)| e.contains(',')),
+        "oracle_report" => false,
         "binary_repr" | "repr_parse" => args[1] != "0" && args[1] != "1" && args[1] != "-1",
         _ => true,
     }
@@ -582,5 +1053,5 @@ fn nontrivial(op: &str, args: &[&str]) -> bool {
 
 fn main() {
     harness_main(Spec { prop: "C19", gen, exec, nontrivial, hang_secs: 20,
-        rule: "exhaustive: all 256 byte values alone x 7 order spellings (absent, enum, &str, String); every shape rank<=3 len<=3 (+ rank-4 shapes: 3 in quick, all of len<=2 and three of len<=3 in thorough) filled so that every byte value occurs, x flat form and every axis (positive and negative spelling) x both orders, unpack and pack(unpack); bit arrays of every length 1..40 (single-bit, constant, alternating, random, values>1) flat and as lanes on every axis position; count from -(8n+2) to 8n+2 flat and selected counts by axis; 21 spellings of the order option as &str and String; out-of-range axes; empty arrays; binary_repr + parse-back for all u8/i8 (all u16/i16 in thorough), boundaries and powers of two +-1 for the wider types; + seeded random arrays rank<=3 len<=5 and rank 4 len<=3 (lane length <=20 for pack). distinct = distinct case lines; non-trivial = array with >=2 elements / |number|>=2. ROBUSTNESS STREAMS: flat byte arrays of 8..4100 bytes (thorough ..8200; around 128/256/1024/2048/4096, byte counts divisible by 8 and not) x both orders, round trip + unpack + count around the length and the 64-bit word boundaries; the same lengths as lanes on every axis position of rank-2/3 arrays (lanes 128..1032 bytes, one lane of 4104 bytes; thorough ..4100x2); bit arrays of 1017..1032, 2041..2056, 8185..8200 bits and 504..32768 bits (thorough ..65537) flat and as lanes, bits and values>1; lib big_shapes() (axis lengths 7..17 in every position, >256/>1024/>4096 elements) flat and along every axis (one axis above 2100 elements), bytes and bits; lib zero_shapes() x 7 axes x 4 order spellings x unpack/pack/round trip/count; seeded random big arrays. By axis above 150 elements (thorough 300; selected cases up to 300 / 2056) the model answers on the reference lane semantics alone (ops *_ref) because the pipeline model of apply_along_axis is quadratic. EVERY unpack/pack/round-trip case is run on the plain receiver (compared), a second time, on Ok(array) through the Result receiver (round trip fully chained), and with every other spelling of the same order (absent/enum/&str/String), receivers alternating; binary_repr through Array::binary_repr, the Result receiver's associated function and Numeric::binary_repr, incl. values around 2^53, 2^62, 2^63, the type limits and seeded full-range values of all ten integer types" });
+        rule: "exhaustive: all 256 byte values alone x 7 order spellings (absent, enum, &str, String); every shape rank<=3 len<=3 (+ rank-4 shapes: 3 in quick, all of len<=2 and three of len<=3 in thorough) filled so that every byte value occurs, x flat form and every axis (positive and negative spelling) x both orders, unpack and pack(unpack); bit arrays of every length 1..40 (single-bit, constant, alternating, random, values>1) flat and as lanes on every axis position; count from -(8n+2) to 8n+2 flat and selected counts by axis; 21 spellings of the order option as &str and String; out-of-range axes; empty arrays; binary_repr + parse-back for all u8/i8 (all u16/i16 in thorough), boundaries and powers of two +-1 for the wider types; + seeded random arrays rank<=3 len<=5 and rank 4 len<=3 (lane length <=20 for pack). distinct = distinct case lines; non-trivial = array with >=2 elements / |number|>=2. ROBUSTNESS STREAMS: flat byte arrays of 8..4100 bytes (thorough ..8200; around 128/256/1024/2048/4096, byte counts divisible by 8 and not) x both orders, round trip + unpack + count around the length and the 64-bit word boundaries; the same lengths as lanes on every axis position of rank-2/3 arrays (lanes 128..1032 bytes, one lane of 4104 bytes; thorough ..4100x2); bit arrays of 1017..1032, 2041..2056, 8185..8200 bits and 504..32768 bits (thorough ..65537) flat and as lanes, bits and values>1; lib big_shapes() (axis lengths 7..17 in every position, >256/>1024/>4096 elements) flat and along every axis (one axis above 2100 elements), bytes and bits; lib zero_shapes() x 7 axes x 4 order spellings x unpack/pack/round trip/count; seeded random big arrays. By axis above 150 elements (thorough 300; selected cases up to 300 / 2056) the model answers on the reference lane semantics alone (ops *_ref) because the pipeline model of apply_along_axis is quadratic. EVERY unpack/pack/round-trip case is run on the plain receiver (compared), a second time, on Ok(array) through the Result receiver (round trip fully chained), and with every other spelling of the same order (absent/enum/&str/String), receivers alternating; binary_repr through Array::binary_repr, the Result receiver's associated function and Numeric::binary_repr, incl. values around 2^53, 2^62, 2^63, the type limits and seeded full-range values of all ten integer types. PART 2: hidden state - lane families of 9..40 (64, 129; thorough 9..300) bytes / bits sharing a long suffix / prefix / multiset / sum / xor with their neighbour as consecutive lanes of one call (rows and columns, unpack / count / pack / round trip) and as consecutive calls (`seq` lines: several calls on one thread, each compared with the model), order / count / shape changed in between, refused-then-accepted calls, lib collision_shape_pairs back to back in both orders, and an A-B-A re-run of the previous case after EVERY unpack / pack / round-trip case (STATE-DIVERGENCE). Huge: flat packing of 65 528 .. 1 120 000 bits, flat round trips of 8 191 .. 140 000 bytes, lanes of 8 192 .. 8 200 bytes (thorough .. 65 537), every axis (up to 5 000 lanes; the crate is quadratic in the lane count) of lib huge_shapes and of rank 2..4 shapes at 2^14 elements: ops *_n - the model answers outcome class and result shape, the values are compared with a harness-native coordinate reference which is itself compared with the full model answer on every other unpack / pack / round-trip case of the run where it has an opinion (count in the oracle_report sample; the run fails below 1000); full model answers at the thresholds (pack of 65 537 bits, unpack_ref [128,128] / [1,130,130] / [130,130]). Exact lengths: every axis length 1..300 in last and middle position, 31 / 37 / 49 / 1000 / 1001, primes 19..257; axis and count c + 2^8 / 2^16 / 2^32 and negatives; counts around +-65 536; ranks 5..8 along every axis" });
 }
